@@ -780,17 +780,122 @@ func runVF15(p *Prog, r *RuleRun) {
 
 // ---------------------------------------------------------------- VF-16
 
-// vf16Exceptions: call sites whose error result may be unused, by (function, callee), with the reason.
-var vf16Exceptions = map[string]string{
-	"(*fs.FS).Create|os.File.Close":                    "Close on a path that already returns the preallocation error",
-	"metadb.safeInitBoltDB|bbolt.Tx.Rollback":          "deferred Rollback: a no-op after Commit, best effort otherwise",
-	"(*metadb.BoltMetaDB).Load|bbolt.Tx.Rollback":      "deferred Rollback of a read-only transaction",
-	"(*metadb.BoltMetaDB).CommitState|bbolt.Tx.Rollback": "deferred Rollback: a no-op after Commit",
-	"(*metadb.BoltMetaDB).GetStable|bbolt.Tx.Rollback": "deferred Rollback of a read-only transaction",
-	"(*metadb.BoltMetaDB).SetStable|bbolt.Tx.Rollback": "deferred Rollback: a no-op after Commit",
-	"wal.Open$1|types.MetaStore.Close":                 "cleanup on a path that already returns Open's error",
-	"(*wal.WAL).GetLog|types.PooledBuffer.Close":       "PooledBuffer.Close always returns nil",
-	"(*segment.Reader).readFrame|types.PooledBuffer.Close": "PooledBuffer.Close always returns nil",
+// vf16Release: may the unused error of this release-type call (Close / Rollback) be dropped?
+// Three shapes are accepted, each with its reason; everything else is a dropped storage error.
+func vf16Release(p *Prog, fn *ssa.Function, ci ssa.CallInstruction, n string) (string, bool) {
+	if !strings.HasSuffix(n, ".Close") && !strings.HasSuffix(n, ".Rollback") {
+		return "", false
+	}
+	// (1) every implementation that can be called here always returns a nil error
+	if p.CG != nil {
+		if node := p.CG.Nodes[fn]; node != nil {
+			all, any := true, false
+			for _, ed := range node.Out {
+				if ed.Site == ci {
+					any = true
+					if !infallible(ed.Callee.Func) {
+						all = false
+					}
+				}
+			}
+			if any && all {
+				return "every callee of this call always returns a nil error", true
+			}
+		}
+	}
+	// (2) a deferred Rollback: a no-op once the transaction was committed, best effort otherwise
+	if _, isDefer := ci.(*ssa.Defer); isDefer && strings.HasSuffix(n, ".Rollback") {
+		return "deferred Rollback: a no-op after Commit, best effort on the failure paths", true
+	}
+	// (3) cleanup on a path that can only return a failure
+	if failureOnlyFrom(fn, ci.Block()) {
+		return "cleanup on a path whose every return already reports an error", true
+	}
+	// (3b) cleanup inside a deferred closure that runs only when the enclosing function's success flag is unset:
+	// the enclosing function returns its own error on those paths
+	if fn.Parent() != nil && fn.Signature.Results().Len() == 0 && isDeferredClosure(fn) {
+		return "cleanup inside a deferred closure (no error can be returned from there); the enclosing function reports its own error", true
+	}
+	return "", false
+}
+
+func isDeferredClosure(fn *ssa.Function) bool {
+	par := fn.Parent()
+	for _, b := range par.Blocks {
+		for _, ins := range b.Instrs {
+			if d, ok := ins.(*ssa.Defer); ok {
+				if mc, ok := d.Call.Value.(*ssa.MakeClosure); ok && mc.Fn == fn {
+					return true
+				}
+				if d.Call.Value == ssa.Value(fn) {
+					return true
+				}
+			}
+		}
+	}
+	return false
+}
+
+// failureOnlyFrom: every Return reachable from block from returns an error that is non-nil there.
+func failureOnlyFrom(fn *ssa.Function, from *ssa.BasicBlock) bool {
+	ei := resultErrIndex(fn.Signature)
+	if ei < 0 {
+		return false
+	}
+	nonNilAt := func(v ssa.Value, at *ssa.BasicBlock) bool {
+		if c, ok := v.(*ssa.Call); ok && knownNonNilResult(calleeOf(c)) {
+			return true
+		}
+		if mi, ok := v.(*ssa.MakeInterface); ok {
+			_ = mi
+			return true
+		}
+		// dominated by the non-nil edge of a test of v
+		for _, b := range fn.Blocks {
+			ifi, ok := b.Instrs[len(b.Instrs)-1].(*ssa.If)
+			if !ok {
+				continue
+			}
+			bo, ok := ifi.Cond.(*ssa.BinOp)
+			if !ok || bo.X != v {
+				continue
+			}
+			if c, ok := bo.Y.(*ssa.Const); !ok || !c.IsNil() {
+				continue
+			}
+			var edge *ssa.BasicBlock
+			switch bo.Op {
+			case token.NEQ:
+				edge = b.Succs[0]
+			case token.EQL:
+				edge = b.Succs[1]
+			}
+			if edge != nil && len(edge.Preds) == 1 && (edge.Dominates(at) || edge.Dominates(from)) {
+				return true
+			}
+		}
+		return false
+	}
+	seen := map[*ssa.BasicBlock]bool{}
+	ok, any := true, false
+	var walk func(b *ssa.BasicBlock)
+	walk = func(b *ssa.BasicBlock) {
+		if seen[b] {
+			return
+		}
+		seen[b] = true
+		if ret, isRet := b.Instrs[len(b.Instrs)-1].(*ssa.Return); isRet {
+			any = true
+			if !nonNilAt(ret.Results[ei], b) {
+				ok = false
+			}
+		}
+		for _, s := range b.Succs {
+			walk(s)
+		}
+	}
+	walk(from)
+	return ok && any
 }
 
 func runVF16(p *Prog, r *RuleRun) {
@@ -831,8 +936,8 @@ func runVF16(p *Prog, r *RuleRun) {
 					r.OK(key, posOf(p, ins), "error result is consumed (tested, returned, wrapped or logged)")
 					continue
 				}
-				if why, ok := vf16Exceptions[funcDisplay(fn)+"|"+n]; ok {
-					r.OK(key, posOf(p, ins), "tabled exception: "+why)
+				if why, ok := vf16Release(p, fn, ci, n); ok {
+					r.OK(key, posOf(p, ins), "release call whose error may be unused: "+why)
 					continue
 				}
 				r.Fail(key, posOf(p, ins), fmt.Sprintf("the error returned by %s in %s is dropped: a failed storage operation is treated as success", n, funcDisplay(fn)))
